@@ -782,7 +782,11 @@ Eval(n, env, st) ==
             IN  IF r.ok THEN R(st1, r.v) ELSE R(Raise(st1, r.err, "name", "?"), VNone)
       [] n.t = "tuple" -> LET r == EvalOps(n.a, env, st) IN IF Bad(r.st) THEN R(r.st, VNone) ELSE R(r.st, VTuple(r.vs))
       [] n.t = "list" -> LET r == EvalOps(n.a, env, st) IN IF Bad(r.st) THEN R(r.st, VNone) ELSE NewList(r.st, r.vs)
-      [] n.t = "bin" -> LET r == EvalOps(n.a, env, st)
+      [] n.t = "bin" -> LET \* <empty tuple / list display> * <anything but an int literal>
+                            f3 == IF n.s = "*" /\ n.a[1].t \in {"tuple", "list"} /\ n.a[1].a = <<>> /\ n.a[2].t # "int"
+                                  THEN {"emptymul"} ELSE {}
+                            r0 == EvalOps(n.a, env, st)
+                            r == [st |-> Flag(r0.st, f3), vs |-> r0.vs]
                         IN  IF Bad(r.st) THEN R(r.st, VNone)
                             ELSE LET res == BinOp(n.s, r.vs[1], r.vs[2], r.st)
                                      \* a one-character str literal ordered against an expression that Cython types as C bint
@@ -959,7 +963,11 @@ ExecAug(n, env, st) ==
                         IN  IF Bad(cur.st) THEN cur.st
                             ELSE LET r == Eval(n.a[2], env, cur.st)
                                  IN  IF Bad(r.st) THEN r.st
-                                     ELSE LET res == IBinOp(n.s, cur.v, r.v, r.st)
+                                     ELSE LET \* container / index names rebound while the value was evaluated: the objects read first are used
+                                              stale == \E k \in 1..2 : t.a[k].t = "name" /\
+                                                          LET lk == LookupFrom(t.a[k].s, env, Len(env), r.st) IN ~(lk.ok /\ lk.v = ro.vs[k])
+                                              st1 == IF stale THEN Flag(r.st, {"stale"}) ELSE r.st
+                                              res == IBinOp(n.s, cur.v, r.v, st1)
                                           IN  IF Bad(res.st) THEN res.st ELSE SetItem(ro.vs[1], ro.vs[2], res.v, res.st)
           [] t.t = "attr" ->
                LET ro == Eval(t.a[1], env, st)
@@ -968,7 +976,10 @@ ExecAug(n, env, st) ==
                         IN  IF Bad(cur.st) THEN cur.st
                             ELSE LET r == Eval(n.a[2], env, cur.st)
                                  IN  IF Bad(r.st) THEN r.st
-                                     ELSE LET res == IBinOp(n.s, cur.v, r.v, r.st)
+                                     ELSE LET stale == t.a[1].t = "name" /\
+                                                       LET lk == LookupFrom(t.a[1].s, env, Len(env), r.st) IN ~(lk.ok /\ lk.v = ro.v)
+                                              st1 == IF stale THEN Flag(r.st, {"stale"}) ELSE r.st
+                                              res == IBinOp(n.s, cur.v, r.v, st1)
                                           IN  IF Bad(res.st) THEN res.st ELSE SetAttr(ro.v, t.s, res.v, res.st)
 
 (* -> [st, flow, v];  flow: "n" next, "r" return, "b" break, "c" continue *)
@@ -1037,7 +1048,7 @@ Obs(r) ==
     LET st == r.st
         hp == st.heap
         gr == IF "g" \in DOMAIN st.glob THEN ReprTop(st.glob["g"], hp) ELSE "<unbound>"
-        fl == {f \in {"stale", "skipcls", "clsname", "minmax", "constop", "chrbint"} : f \in st.fl}
+        fl == {f \in {"stale", "skipcls", "clsname", "minmax", "constop", "chrbint", "emptymul"} : f \in st.fl}
         base == [kind |-> "ret", ty |-> "", rp |-> "", site |-> "", log |-> st.log, g |-> gr, fl |-> fl]
     IN  IF st.oom \/ HasAt(gr) THEN [base EXCEPT !.kind = "oom"]
         ELSE IF st.exc # "" THEN [base EXCEPT !.kind = "exc", !.ty = st.exc, !.rp = st.eargs, !.site = st.esite]
